@@ -166,7 +166,7 @@ Ltac hp_use :=
 Lemma cstep_acks s it s' o :
   cstep s it = (s', o) -> (overall s <= overall s')%N /\ sorted_between (overall s) (overall s') (acks o).
 Proof.
-  unfold cstep, fatal, stop, recover, heartbeat, handle_xlog, write_loop, get_start.
+  unfold cstep, fatal, stop, recover, recover_fail, heartbeat, handle_xlog, write_loop, get_start.
   split_step; intros H; inversion H; subst; clear H;
     repeat match goal with
     | E : (_, _) = (_, _) |- _ => inversion E; subst; clear E
@@ -192,7 +192,7 @@ Qed.
 (* the same analysis as a reusable tactic: every leaf of one loop iteration, with the facts of
    each handleProgress call in the context *)
 Ltac step_cases :=
-  unfold cstep, fatal, stop, recover, heartbeat, handle_xlog, write_loop, get_start;
+  unfold cstep, fatal, stop, recover, recover_fail, heartbeat, handle_xlog, write_loop, get_start;
   split_step;
   let H := fresh in intros H; inversion H; subst; clear H;
   repeat match goal with
@@ -269,7 +269,7 @@ Proof.
     by (intros; apply Hv; apply in_or_app; right; apply in_or_app; now left).
   assert (Hv3 : forall v, In v (blocked_values (i_blocked it)) -> P v)
     by (intros; apply Hv; apply in_or_app; right; apply in_or_app; now right).
-  unfold cstep, fatal, stop, recover, heartbeat, handle_xlog, write_loop, get_start.
+  unfold cstep, fatal, stop, recover, recover_fail, heartbeat, handle_xlog, write_loop, get_start.
   split_step; intros H; inversion H; subst; clear H;
     repeat match goal with
     | E : (_, _) = (_, _) |- _ => inversion E; subst; clear E
